@@ -8,9 +8,10 @@ cd "$WT" || exit 2
 git checkout -q -- . ; rm -rf tests
 mkdir -p tests; cp "$M/demo.rs" tests/demo.rs
 [ -n "$TOML" ] && [ -f "$TOML" ] && cp "$TOML" Cargo.toml
-cargo test --offline --test demo "$@" >/tmp/vs_clean.log 2>&1; c=$?
+cargo test --offline --test demo "$@" >/tmp/vs_$$_clean.log 2>&1; c=$?
 git apply "$M/patch.diff" || { echo "$M: PATCH DOES NOT APPLY"; git checkout -q -- .; rm -rf tests; exit 1; }
-cargo test --offline --lib "$@" >/tmp/vs_suite.log 2>&1; s=$?
-cargo test --offline --test demo "$@" >/tmp/vs_mut.log 2>&1; m=$?
+cargo test --offline --lib "$@" >/tmp/vs_$$_suite.log 2>&1; s=$?
+cargo test --offline --test demo "$@" >/tmp/vs_$$_mut.log 2>&1; m=$?
 git checkout -q -- . ; rm -rf tests
-echo "$M: demo_on_clean=$([ $c = 0 ] && echo pass || echo FAIL) suite_with_patch=$([ $s = 0 ] && echo pass || echo FAIL) ($(grep -m1 'test result' /tmp/vs_suite.log | cut -c1-40)) demo_with_patch=$([ $m != 0 ] && echo fails-as-required || echo PASSES)"
+echo "$M: demo_on_clean=$([ $c = 0 ] && echo pass || echo FAIL) suite_with_patch=$([ $s = 0 ] && echo pass || echo FAIL) ($(grep -m1 'test result' /tmp/vs_$$_suite.log | cut -c1-40)) demo_with_patch=$([ $m != 0 ] && echo fails-as-required || echo PASSES)"
+rm -f /tmp/vs_$$_*.log
